@@ -17,6 +17,7 @@ of vf/refs/fimo_ref.py.
 
 import math
 import os
+import time
 import shutil
 import tempfile
 
@@ -50,7 +51,7 @@ ASSUMPTIONS = [
 	"1e-9 (log2) of the p-value threshold is skipped (inconclusive)",
 	"scores compared at 1e-9 (the kernel is compiled with fastmath)",
 ]
-REQUIRED = {"many_sequence_calls": 1, "motifs_with_p_exactly_equal_to_threshold": 3,
+REQUIRED = {"fasta_path_reused_calls": 20, "many_sequence_calls": 1, "motifs_with_p_exactly_equal_to_threshold": 3,
 	"history_followup_calls": 20, "reference_hits": 200, "hits_in_last_window": 10,
 	"hits_in_first_window": 10, "thread_variants": 5, "fasta_variants": 5}
 TECHNIQUE = ("runtime monitoring: pure-Python reference scanner + exact tail "
@@ -456,6 +457,41 @@ def run_case(cls, params, rec):
 				"call after other calls gives a different hit table"),
 				mech="C12/call-history-dependence")
 			return
+		# call history on the same FASTA PATH: the file is replaced by other
+		# records (other names, lengths and order, clearly newer time stamp);
+		# whatever an earlier call derived from the old file (an index next
+		# to it) must not be trusted
+		if len(seqs) <= 50 and not params.get("exact_threshold"):
+			seqs2 = [s[::-1] + "AC" for s in seqs[::-1]] + [seqs[0]]
+			fnames2 = ["r%d_%s" % (i, "abcdef"[i % 6]) for i in range(len(
+				seqs2))]
+			with open(fpath, "w") as fh:
+				for n_, s_ in zip(fnames2, seqs2):
+					fh.write(">%s\n%s\n" % (n_, s_))
+			tnew = time.time() + 5
+			os.utime(fpath, (tnew, tnew))
+			must3, may3, skipped3, info3 = reference_hits(motifs, seqs2,
+				params)
+			st, val = gen.call(F.fimo, tm, fpath, **kw)
+			rec.count("fasta_path_reused_calls")
+			if st == "raise":
+				rec.violation(cls, pub, dict(desc, what="fimo raised on a "
+					"FASTA path whose content was replaced",
+					error=repr(val)[:300]), mech="C12/raised")
+				return
+			try:
+				got3, dup3 = df_rows(val, fnames2)
+				bad = compare(rec, cls, params, got3, dup3, must3, may3,
+					skipped3, info3, names, thr, "FASTA path scanned before "
+					"with other content")
+			except ValueError as e:
+				bad = ({"what": "a hit names a sequence that is not in the "
+					"file any more (FASTA path scanned before with other "
+					"content): %s" % str(e)[:100]}, "C12/stale-file-state")
+			if bad is not None:
+				rec.violation(cls, pub, dict(desc, **bad[0]),
+					mech="C12/stale-file-state")
+				return
 		# sanitizer-style instruments on the kernel
 		if params.get("instrument") and equal and sum(lens) <= 400:
 			src = seq_tensor(seqs)
